@@ -92,7 +92,19 @@ def judge(before: bytes, after: bytes, whole_file_formatted: bool):
                 return "syntax tree outside the snapshot() arguments changed (whole-file formatting applies)"
             return None
         mb, argsb = mask(b)
-        ma, argsa = mask(strip_import(a))
+        a_wo = a
+        for name in ("external", "HasRepr"):
+            line = f"\nfrom inline_snapshot import {name}\n"
+            if a.count(line) > b.count(line):         # only an ADDED import line is tolerated (and taken out for the comparison)
+                a_wo = a_wo.replace(line, "", 1) if not b.count(line) else a_wo[::-1].replace(line[::-1], "", 1)[::-1]
+        ma, argsa = mask(a_wo)
+        # the import line is only allowed when the generated code needs that name
+        for name in IMPORT_RE.findall(a):
+            if a.count(f"\nfrom inline_snapshot import {name}\n") > b.count(f"\nfrom inline_snapshot import {name}\n"):
+                if not any(re.search(rf"\b{name}\(", x) for x in argsa):
+                    return f"`from inline_snapshot import {name}` was added although no generated snapshot argument uses {name}"
+                if re.search(rf"^from inline_snapshot import [^\n]*\b{name}\b", b, re.M):
+                    return f"`from inline_snapshot import {name}` was added although the file already imports {name}"
         if len(argsa) != len(argsb):
             return f"number of snapshot() calls changed from {len(argsb)} to {len(argsa)}"
         if ma != mb:
@@ -175,6 +187,31 @@ PLUGIN_TESTS = [
 ]
 
 
+W_CLASS = 'class W:\n    def __repr__(self):\n        return "<W>"\n\n    def __eq__(self, o):\n        return True if isinstance(o, W) else NotImplemented\n\n\n'
+PLUGIN_PROJECTS = [
+    # several files rewritten in one session: what one file needs must not leak into the others
+    ({"test_a.py": 'from inline_snapshot import snapshot\n\n\n' + W_CLASS + 'def test_a():\n    assert W() == snapshot()\n',
+      "test_b.py": 'from inline_snapshot import snapshot\n\n\ndef test_b():\n    assert 5 == snapshot(4)\n    assert [1, 2] == snapshot()\n',
+      "test_c.py": 'from inline_snapshot import snapshot, outsource\n\n\ndef test_c():\n    assert outsource("y" * 40) == snapshot()\n',
+      "test_d.py": 'import os\nfrom inline_snapshot import snapshot\n\n\ndef test_d():\n    assert "x" == snapshot("y")\n'}, "create,fix"),
+    ({"test_a.py": 'from inline_snapshot import snapshot, outsource\n\n\ndef test_a():\n    assert outsource("z" * 40) == snapshot()\n',
+      "test_b.py": 'from inline_snapshot import snapshot, outsource\nfrom inline_snapshot import external\n\n\ndef test_b():\n    assert outsource("z" * 40) == snapshot()\n',
+      "sub/test_c.py": 'from inline_snapshot import snapshot\n\n\n' + W_CLASS + 'def test_c():\n    assert [W()] == snapshot([])\n    assert 1 == snapshot()\n',
+      "sub/test_d.py": 'from inline_snapshot import snapshot\n\n\ndef test_d():\n    assert 1 == snapshot()\n'}, "create,fix"),
+]
+
+
+def run_plugin_project(item):
+    files, flags = item
+    d = driver.scratch_dir()
+    try:
+        driver.write_project(d, files)
+        r = driver.run_pytest(d, [f"--inline-snapshot={flags}"])
+        return {"after": {n: (d / n).read_bytes() for n in files}, "rc": r["rc"], "tail": (r["stdout"] + r["stderr"])[-1200:]}
+    finally:
+        shutil.rmtree(d, ignore_errors=True)
+
+
 def run_plugin_case(item):
     src, flag, _ = item
     d = driver.scratch_dir()
@@ -240,7 +277,18 @@ def run(ctx: Ctx):
         if why:
             ctx.report("C03 oracle (plugin): " + why, {"kind": "plugin", "source": item[0], "flag": item[1], "after": o["after"].decode("utf-8", "replace"), "output": o["tail"]},
                        tag=_plugin_tag(item[0], o))
-    ctx.coverage["oracle"]["plugin_sessions"] = len(PLUGIN_TESTS)
+    for item, o in zip(PLUGIN_PROJECTS, tmap(run_plugin_project, PLUGIN_PROJECTS)):
+        ctx.count(("plugin_project", repr(item[0])), True)
+        if o["rc"] not in (0, 1):
+            ctx.report(f"plugin session exit status {o['rc']}", {"kind": "plugin_project", "files": item[0], "flag": item[1], "output": o["tail"]})
+            continue
+        for n, src in item[0].items():
+            why = judge(src.encode(), o["after"][n], False)
+            if o["after"][n] == src.encode():
+                why = "nothing was written"
+            if why:
+                ctx.report(f"C03 oracle (plugin, several files, {n}): " + why, {"kind": "plugin_project", "files": item[0], "flag": item[1], "after": o["after"][n].decode("utf-8", "replace")})
+    ctx.coverage["oracle"]["plugin_sessions"] = len(PLUGIN_TESTS) + len(PLUGIN_PROJECTS)
 
 
 def _plugin_tag(src, o):
@@ -259,6 +307,14 @@ def replay(ctx: Ctx, data):
         o = run_plugin_case((case["source"], case["flag"], False))
         print(o["after"].decode("utf-8", "replace"), o["tail"])
         return o["rc"] in (0, 1) and judge(o["before"], o["after"], False) is None and o["after"] != o["before"]
+    if case.get("kind") == "plugin_project":
+        o = run_plugin_project((case["files"], case["flag"]))
+        ok = o["rc"] in (0, 1)
+        for n, src in case["files"].items():
+            why = judge(src.encode(), o["after"][n], False)
+            print(n, "oracle:", why)
+            ok = ok and why is None and o["after"][n] != src.encode()
+        return ok
     p = case["prog"]
     p["flags"] = tuple(p["flags"])
     o = run_case(p)
